@@ -25,6 +25,7 @@ func (fr *Frame) execCall(st *State, c *ssa.CallCommon, res ssa.Value, pos token
 		args = append(args, fr.val(a))
 	}
 	fr.siteAssertsCall(st, c, args, pos)
+	fr.countCall(st, c)
 	if c.IsInvoke() {
 		recv := fr.val(c.Value)
 		if em := v.eng.extInvoke(c); em != nil {
@@ -395,9 +396,24 @@ func (fr *Frame) applyContract(st *State, f *ssa.Function, fc *FuncContract, c *
 		v.smt.assert(v.closedFact(n, rs.At(i).Type(), v.alloc(st), 0))
 		results = append(results, Val{T: n})
 	}
-	for _, en := range fc.Ensures {
+	for _, en := range append(append([]*Clause(nil), fc.Ensures...), fc.Assumed...) {
 		env := fr.calleeEnv(st, before, f, fc, bound, results)
-		g, extra := env.boolTerm(en.Expr)
+		g, extra, ok := func() (g string, extra []string, ok bool) {
+			defer func() {
+				if r := recover(); r != nil {
+					if _, isSpec := r.(specErr); isSpec {
+						ok = false // the clause talks about the callee's locals: of no use to a caller
+						return
+					}
+					panic(r)
+				}
+			}()
+			g, extra = env.boolTerm(en.Expr)
+			return g, extra, true
+		}()
+		if !ok {
+			continue
+		}
 		for _, x := range extra {
 			v.smt.assertG(en.Group, x)
 		}
@@ -796,7 +812,40 @@ func (fr *Frame) execNext(st *State, x *ssa.Next) {
 
 // Channels: a send has no effect on the modelled heap (the receiver runs in another goroutine);
 // a select is a nondeterministic choice among its cases (default only when non-blocking).
+// chanMsgInv: the message invariant declared (`sent`) for the element type *T of a channel is
+// checked where a value is sent and assumed where one is received.
+func (fr *Frame) chanMsgInv(st *State, elem types.Type, val string, send bool, pos token.Pos) {
+	v := fr.v
+	pt, ok := elem.Underlying().(*types.Pointer)
+	if !ok {
+		return
+	}
+	n, ok := types.Unalias(pt.Elem()).(*types.Named)
+	if !ok || n.Obj().Pkg() == nil {
+		return
+	}
+	tc := v.eng.cs.Types[fkey(n.Obj().Pkg().Path(), n.Obj().Name())]
+	if tc == nil || tc.Sent == nil {
+		return
+	}
+	env := fr.specEnv(st, nil)
+	env.retBlock = fr.curBlock
+	env.atSite = true
+	env = env.bind("v", specVal{t: val, typ: elem, st: st})
+	g, extra := env.boolTerm(tc.Sent.Expr)
+	if send {
+		if fr.top {
+			o := v.addObl(st, "chanmsg", n.Obj().Name(), g, "sent "+tc.Sent.Text, fr.propsOf(), pos)
+			o.Extra = extra
+		}
+		return
+	}
+	v.smt.assert(implies(st.reach, g))
+	v.smt.note("message invariant of *" + n.Obj().Name() + " assumed at a channel receive (asserted at the send sites under contract)")
+}
+
 func (fr *Frame) execSend(st *State, x *ssa.Send) {
+	fr.chanMsgInv(st, x.Chan.Type().Underlying().(*types.Chan).Elem(), fr.term(st, x.X), true, x.Pos())
 	fr.v.smt.note("channel send: no effect on the modelled state (delivery is outside sequential reasoning)")
 	fr.siteAssertsNamed(st, "send", x.Pos())
 }
@@ -815,6 +864,7 @@ func (fr *Frame) execSelect(st *State, x *ssa.Select) {
 			t := sc.Chan.Type().Underlying().(*types.Chan).Elem()
 			n := v.smt.fresh(fmt.Sprintf("%s.recv%d", fr.name(x), i), v.smt.sortOf(t))
 			v.smt.assert(v.closedFact(n, t, v.alloc(st), 0))
+			fr.chanMsgInv(st, t, n, false, x.Pos())
 			out = append(out, Val{T: n})
 		}
 	}
@@ -824,8 +874,38 @@ func (fr *Frame) execSelect(st *State, x *ssa.Select) {
 			fr.countRecv(st, fr.term(st, sc.Chan), fmt.Sprintf("(= %s %d)", idx, i))
 		}
 	}
+	for _, sc := range x.States {
+		if sc.Dir == types.SendOnly {
+			t := sc.Chan.Type().Underlying().(*types.Chan).Elem()
+			fr.chanMsgInv(st, t, fr.term(st, sc.Send), true, x.Pos())
+			fr.siteAssertsNamed(st, "send", x.Pos())
+		}
+	}
 	v.smt.note("select: nondeterministic choice among the cases; received values unconstrained")
 	fr.vals[x] = Val{Tuple: out}
+}
+
+// countCall: ghost counter ncalls!<name> += 1 for the callees named in `opt track = a b c`
+// (calls made by the function under contract itself, not by its callees).
+func (fr *Frame) countCall(st *State, c *ssa.CallCommon) {
+	v := fr.v
+	if !fr.top || v.fc == nil || v.fc.Opts["track"] == "" {
+		return
+	}
+	var callee string
+	if c.IsInvoke() {
+		callee = c.Method.Name()
+	} else if f, ok := c.Value.(*ssa.Function); ok {
+		callee = f.Name()
+	} else {
+		return
+	}
+	for _, t := range strings.Fields(v.fc.Opts["track"]) {
+		if t == callee {
+			k := v.ghostKey("ncalls!"+callee, "Int")
+			v.setHeap(st, k, "(+ 1 "+v.heap(st, k)+")")
+		}
+	}
 }
 
 // countRecv: ghost counter nrecv[ch] += 1 when cond holds.
